@@ -87,3 +87,5 @@ NOT_APPLICABLE = {("C%02d" % i): _PENDING for i in range(1, 21) if ("C%02d" % i)
 CHECKS["C05"].update(technique=_T_S, engine="pyvc+rtc", text="Real ctc_prefix_search_advance source symbolically executed per beam shape against the scalar prefix-beam recursion (extension / keep / merge masses, tokens, lengths, distinct, best-first, optimal, new prefix relation, fillers) for all probabilities and token ids with an assumed -inf-aware top-k contract; whole searches (exact alignment sums, reference prefix beam, fusion, batch = solo) by exhaustive run-time contracts.")
 CHECKS["C12"]["text"] = CHECKS["C12"]["text"].replace("utterance discovery by prefix/suffix.", "utterance discovery by prefix/suffix. Per transcript length, all contents: _load_ref / _write_hyp are inverse for symbolic tokens, sos and eos (0 and negative values included) with arbitrary symbols around the hypothesis.", 1)
 CHECKS["C17"]["text"] = CHECKS["C17"]["text"] + " Proved for all file names, prefixes and suffixes: _DirectoryDataset lists the selected files' ids in ascending id order (the order --first-n and the error-rate pairing rely on)."
+CHECKS["C18"].update(technique="contract-based deductive verification: the real time_distributed_return for symbolic horizon and batch size (matrix product and pow as assumed recurrence contracts, inductions over the summation index as base/step obligations, z3) and per horizon in concrete-shape symbolic mode; bounded run-time contracts for statistics, deltas and the CLI",
+                     text="Unbounded: Bellman recurrence of the real time_distributed_return for every horizon, batch size, reward and discount factor (real arithmetic), both layouts. " + CHECKS["C18"]["text"])
